@@ -527,7 +527,12 @@ class InterpolatableFunction(ABC):
         ## type the function uses
         if xEvaluateRegion.size > 0:
             results[needsEvaluationCondition] = helpers.derivative(
-                self._evaluateOutOfBounds, x, n=order, epsilon=epsilon, scale=scale
+                self._evaluateOutOfBounds,
+                # only the out-of-range points (a 0-d input stays 0-d)
+                x if x.ndim == 0 else xEvaluateRegion,
+                n=order,
+                epsilon=epsilon,
+                scale=scale,
             )
 
         return results
